@@ -56,7 +56,7 @@ struct C03 : Harness {
                 p.push_back(k);
                 int calls = *irange(1, 2);
                 for (int c = 0; c < calls; ++c) {
-                    size_t n = (size_t)*irange(0, 29) * bs;
+                    size_t n = (size_t)*rc::gen::weightedOneOf<int>({{8, irange(0, 29)}, {1, irange(30, 160)}}) * bs;
                     Op e = mkop(opn(kind, kind == PM ? "crypt" : (*chance(50) ? "enc" : "dec")));
                     e.set("s", 0).set("in", *gdata(n));
                     if (kind == PM) e.set("tweak", *gdata(n));
